@@ -697,6 +697,21 @@ def pat_scalars(rng, s):
     return [mk_homothety(rng, s), gen_endo(rng, s, 0), mk_homothety(rng, s)]
 
 
+def pat_scalars_mixed_types(rng, s):
+    """ALWAYS two or three scalar operators of DIFFERENT numeric types around a non-scalar operator — an integer-typed
+    scale (Python int, int32 array) with a fractional one (`2 * (A / 3)`, `-(A / 2)`), in either order: the merged scale is
+    the product in the promoted type, never in the type of whichever factor comes first"""
+    ints = [HomothetyOperator(int(rng.choice([2, 3, -1, -2])), s), HomothetyOperator(jnp.asarray(rng.choice([2, 3, -1]), dtype=jnp.int32), s)]
+    fracs = [HomothetyOperator(float(rng.choice([0.5, 0.25, 1.5])), s),
+             HomothetyOperator(jnp.asarray(1.0 / rng.choice([3, 2, 4]), dtype=dtype_of(s)), s)]
+    a, b = rng.choice(ints), rng.choice(fracs)
+    mid = gen_endo(rng, s, 0)
+    chain = [a, mid, b] if rng.random() < 0.5 else [b, mid, a]
+    if rng.random() < 0.4:
+        chain.append(rng.choice(ints + fracs))
+    return chain
+
+
 def pat_block_rule_identities(rng, s):
     """two block-diagonal operators whose block-wise products become identities only THROUGH A RULE (a relabelling
     followed by its transpose), never through the eager shortcuts of `@`: the merged block diagonal of identities
@@ -721,7 +736,7 @@ def pat_block_rule_identities(rng, s):
 
 PATTERNS = [pat_inverse_pair, pat_rotation_inverse_pair, pat_many_commutations, pat_lazy_inverse_pair, pat_rotations, pat_rot_hwp, pat_pol_hwp,
             pat_index, pat_index_multi, pat_index_unique, pat_index_repeats, pat_pack, pat_reshape, pat_moveaxis, pat_block_diag_diag, pat_block_col_diag,
-            pat_block_single, pat_block_nested, pat_sandwich, pat_identity, pat_scalars, pat_block_rule_identities]
+            pat_block_single, pat_block_nested, pat_sandwich, pat_identity, pat_scalars, pat_scalars_mixed_types, pat_block_rule_identities]
 
 
 def gen_chain(rng: random.Random, s, length: int, depth: int, p_pattern: float = 0.5, force_pattern=None):
